@@ -300,7 +300,7 @@ def main(modname, argv=None):
                 continue
             shown.add(sig)
             if len(shown) <= 12:
-                print(f"  violation detail: key={v.get('key')} {v.get('desc','')[:400]}")
+                print(f"  violation detail: key={v.get('key')} {v.get('desc','')[:900]}")
                 print(f'VIOLATION property={prop} replay={path}')
         rc = 1
     min_dec = getattr(mod, 'MIN_DECISIVE', {'quick': 2, 'thorough': 2})[args.tier]
